@@ -833,3 +833,95 @@ func genC10(r *rng, tier string, st *stats) []taggedScen {
 	st.Extra["nontrivial_floor"] = n / 2
 	return out
 }
+
+// ---------------------------------------------------------------- C17
+
+func genC17(r *rng, tier string, st *stats) []taggedScen {
+	var out []taggedScen
+	styles := []string{"res", "any"}
+	impls := []string{"opt", "bld", "mix"}
+	N := 2
+	for _, sp := range styles {
+		for _, se := range styles {
+			for _, sq := range styles {
+				for ii, impl := range impls {
+					for _, fb := range []string{"default", "user"} {
+						k := NodeDef{Kind: "user", Impl: impl, Retry: retry(N, 0), Fb: fb, Prep: sp, Exec: se, Post: sq}
+						for pay := 0; pay < nPayloads; pay++ {
+							plans := []lcPlan{{k: 1, postAct: 5, pay: pay}, {k: 2, postAct: 5, pay: pay}}
+							if fb == "user" {
+								plans = append(plans, lcPlan{k: 0, extra: 3, fbOK: true, postAct: 5, pay: pay})
+							}
+							for pi, p := range plans {
+								inFlow := (pay+pi+ii)%2 == 0
+								b := newSB()
+								x := b.add(k)
+								b.lifecycle(x, k, p)
+								b.sc.Root = x
+								tags := []string{"styles=" + sp + "/" + se + "/" + sq, "impl=" + impl, fmt.Sprintf("payload=%d", pay), fmt.Sprintf("path=%d", pi)}
+								if inFlow {
+									y := b.marker()
+									b.sc.Root = b.flow(x, [][]int{{x, 5, y}})
+									tags = append(tags, "in_flow")
+								}
+								out = append(out, taggedScen{sc: b.sc, tags: tags, nontrivial: true})
+							}
+						}
+					}
+				}
+			}
+		}
+	}
+	// sequential batches: prep shapes x exec style x what exec returns
+	type shape struct {
+		name, style string
+		mk          func(b *sb, n int) Val
+	}
+	toks := func(b *sb, n int, sh string) []Val {
+		l := []Val{}
+		for i := 0; i < n; i++ {
+			t := b.tok()
+			t.Shape = sh
+			l = append(l, t)
+		}
+		return l
+	}
+	shapes := []shape{
+		{"results", "batch", func(b *sb, n int) Val {
+			l := []Val{}
+			for i := 0; i < n; i++ {
+				l = append(l, vRes(b.tok()))
+			}
+			return vSl(true, "", l)
+		}},
+		{"any-slice", "any", func(b *sb, n int) Val { return vSl(false, "any", toks(b, n, "")) }},
+		{"tok-slice-in-result", "res", func(b *sb, n int) Val { return vRes(vSl(false, "toks", toks(b, n, ""))) }},
+		{"ints", "any", func(b *sb, n int) Val { return vSl(false, "ints", toks(b, n, "int")) }},
+		{"strs", "res", func(b *sb, n int) Val { return vSl(false, "strs", toks(b, n, "str")) }},
+		{"named-slice", "any", func(b *sb, n int) Val { return vSl(false, "named", toks(b, n, "")) }},
+		{"single", "any", func(b *sb, n int) Val { return b.tok() }},
+	}
+	for _, sh := range shapes {
+		for _, se := range styles {
+			for pay := 0; pay < nPayloads; pay++ {
+				for _, n := range []int{1, 3} {
+					for _, impl := range impls {
+						b := newSB()
+						x := b.add(NodeDef{Kind: "batch", Impl: impl, Retry: retry(2, 0), Fb: "default", Prep: sh.style, Exec: se, Post: "batch"})
+						b.script(x, "prep", 0, []Resp{rOk(sh.mk(b, n))}, rOk(vNil()))
+						// second item fails once first
+						b.script(x, "exec", 0, []Resp{rOk(b.payload(pay)), rErr(b.errID())}, rOk(b.payload(pay)))
+						b.script(x, "post", 0, []Resp{rAct(5)}, rAct(5))
+						b.sc.Root = x
+						out = append(out, taggedScen{sc: b.sc, tags: []string{"kind=batch/" + impl, "prep=" + sh.name, "exec=" + se, fmt.Sprintf("payload=%d", pay), fmt.Sprintf("items=%d", n)}, nontrivial: true})
+					}
+				}
+			}
+		}
+	}
+	out = append(out, commonPool(r, tier, "C17")...)
+	st.Exhaustive = true
+	st.Scope = "8 style combinations x option/builder/mixed construction x fallback default/user x 9 payload kinds (token, nil, Result, Result of Result, typed nil pointer, typed nil map, slice, int, error Result) x {first attempt succeeds, success after a retry, recovered by fallback} x {single, in flow}; sequential batches: 7 prep shapes x 2 exec styles x 9 payload kinds x 1 or 3 items"
+	st.Rule = "enumeration; every case is non-trivial (a payload crosses at least two adapters); distinct by scenario hash"
+	return out
+}
